@@ -60,6 +60,16 @@ CHECKS = {
     technique="TLA+ spec RpycVinegar: outcome table (class category x argument shape x attribute shape x sender switches x receiver switches) evaluated and exported by TLC with its safety meta-properties as ASSUMEs; every case refined to concrete exceptions (all built-in exception classes) and pushed through vinegar.dump -> brine -> vinegar.load and through real connection pairs; crafted records checked for imports / constructors",
     text="the complete switch matrix is decided by the specification and executed with every built-in exception class of the interpreter as representative, comparing class, isinstance, args, attributes, traceback/version disclosure, sys.modules delta and constructor canaries; the two exception-group classes that cannot be rebuilt on Python 3.11+ are a recorded known finding",
     note="KeyboardInterrupt is routed locally by default and not sent; classes with mandatory constructor arguments are built with fixed arguments"),
+ "C04": dict(
+    spec="RpycWire", design="5/C04",
+    technique="TLA+ spec RpycWire: the brine format as an executable reference (Enc, strict Dec, Dumpable) written from the tag table; TLC proves round-trip / injectivity / prefix-freeness / self-delimitation on a bounded universe and evaluates Enc, Dumpable and Dec in batches on seeded random Python values and byte strings, which are compared with brine.dump / dumpable / load",
+    text="the laws of the format are checked by TLC on an 822-value universe; every vector and thousands of random values covering every length class, 1-300 digit integers, raw float/complex bit patterns, all UTF-8 widths and lone surrogates, nested containers and non-serializable values are encoded by the specification (evaluated by TLC) and compared byte for byte and by type-exact round trip with brine; all byte strings up to length 2 plus sampled longer ones and mutated encodings are decoded by the specification and by brine.load",
+    note="codec fidelity is not TLA+'s home ground: the specification is an independently written reference codec whose algebraic properties TLC checks; floats are opaque 8-byte payloads; ints beyond the int->str digit limit are out of scope"),
+ "C19": dict(
+    spec="RpycWire", design="5/C19",
+    technique="TLA+ spec RpycWire as independent reference for the 5.x wire format (tag table, shortest form, frame layout, numeric constants): constants, vectors and frames compared byte for byte with the implementation; a reference peer whose every frame is encoded/decoded by TLC converses with a real Connection in both roles",
+    text="the published constants, encodings and frame layout are literals of the specification; TLC exports them and evaluates Enc/Dec on vectors and on every frame of scripted conversations (GETROOT, GETATTR, CALL/CALLATTR with each label, PING, exception, DEL, CLOSE) between the reference peer and a real client and a real server",
+    note="the reference is only as independent as its author (constants taken from the pinned release and documentation); zlib output compared after decompression"),
 }
 NA = {}
 
